@@ -1,0 +1,19 @@
+//go:build verif
+
+// Contracts for package ops, used by /verif (govc). Comment-only; compiled only under -tags verif.
+package ops
+
+//@ func RsaPublicKey
+//@   assigns nothing
+//@   modifies signerCalls
+//@   ensures err == nil ==> result != nil
+
+//@ func IssuerCertFromBundle
+//@   assigns nothing
+//@   modifies caCalls, bundleKeyArg, lastBundle
+//@   ensures err == nil ==> result != nil
+
+//@ func CreateCertificateFromTemplate
+//@   assigns nothing
+//@   modifies signerCalls, sigKey, sigDigest, lastSig
+//@   ensures err == nil ==> result != nil
